@@ -5435,6 +5435,16 @@ impl<'a, 'graph> Builder<'a, 'graph> {
         (version.clone(), specifier)
       })
       .collect::<Vec<_>>();
+    #[cfg(feature = "verif_hooks")]
+    let candidates = {
+      let mut candidates = candidates;
+      crate::verif_hooks::verif_force_collected_order(
+        "probe_candidates",
+        &mut candidates,
+        |(version, _)| version.clone(),
+      );
+      candidates
+    };
     if candidates.is_empty() {
       return;
     }
